@@ -269,6 +269,19 @@ def m_split(I, st, recv, args, kwargs, fr, k):
     """s.split(sep): a fresh list of >= 1 strings, none containing sep; joined by sep they give s back."""
     if not args or z3.is_true(z3.simplify(is_none(B.as_sym(I, st, args[0]).t))):
         raise Unsupported("split() on white space")
+    if len(args) == 2 and not kwargs and B.concrete_key(I, st, args[1]) == 1:
+        # s.split(sep, 1): [s] when sep does not occur, else [before first sep, rest]
+        s_ = _s(recv.t); sep_ = _s(B.as_sym(I, st, args[0]).t)
+        idx = z3.IndexOf(s_, sep_, 0)
+        found = idx >= 0
+        n_ = z3.Length(s_); m_ = z3.Length(sep_)
+        a_ = z3.If(found, z3.SubString(s_, 0, idx), s_)
+        b_ = z3.SubString(s_, idx + m_, n_ - idx - m_)
+        def two(s2):
+            return k(s2, B.new_list(I, s2, [Sym(_wrap(recv.t, a_)), Sym(_wrap(recv.t, b_))]))
+        def one(s2):
+            return k(s2, B.new_list(I, s2, [recv]))
+        return I.branch(st, found, two, one)
     if len(args) > 1 or kwargs:
         raise Unsupported("split with maxsplit")
     s = _s(recv.t); sep = _s(B.as_sym(I, st, args[0]).t)
